@@ -834,9 +834,10 @@ class StyleProperties:
       elif model_value.overline is False:
         actual_values.append("noOverline")
 
-      attrib_value = " ".join(actual_values)
+      # a value that specifies none of the three decorations cannot be expressed: nothing is written
 
-      xml_element.set(f"{{{cls.ns}}}{cls.local_name}", attrib_value)
+      if len(actual_values) > 0:
+        xml_element.set(f"{{{cls.ns}}}{cls.local_name}", " ".join(actual_values))
 
 
   class TextEmphasis(StyleProperty):
